@@ -92,6 +92,7 @@ def run_shard(args):
         shutil.rmtree(work, ignore_errors=True)
     out = core.REC.dump()
     out["status"] = status
+    out["shard"] = [args.shard, args.nshards]
     out["wall_s"] = time.time() - t0
     with open(args.out, "w") as fd:
         # (a monitor that put a live object into a case must not cost the shard its verdicts: such an object is written as its repr)
@@ -197,6 +198,8 @@ def run_property(prop, tier, seed, nshards=None, quiet=False):
             samples.setdefault(c, [])
             if len(samples[c]) < 2:
                 samples[c].extend(ss[: 2 - len(samples[c])])
+        for v_ in r["violations"]:
+            v_["shard"] = r.get("shard")  # with tier and seed: the part of the workload (and the PRNG stream) that produced the case
         violations.extend(r["violations"])
         vcount += r["violation_count"]
         if r["status"] != "ok":
@@ -353,6 +356,17 @@ def replay(prop, path):
     finally:
         shutil.rmtree(work, ignore_errors=True)
     vs = core.REC.violations
+    if not vs and v.get("shard") and not os.environ.get("VERIF_REPLAY_CASE_ONLY"):
+        # the single case does not violate (any more).  What was recorded may depend on what happened to the objects before the
+        # call (caches, shared state, an earlier edit): re-run the part of the workload that produced it - same tier, seed, shard
+        # and process environment, hence the same PRNG stream - and look for a violation by the same monitor.
+        again = rerun_shard(prop, v)
+        if again:
+            for x in again[:3]:
+                print("REPLAY violated (re-running shard %d/%d of the %s workload, seed %s): monitor=%s op=%s :: %s" % (
+                    v["shard"][0], v["shard"][1], v.get("tier"), v.get("seed"), x["monitor"], x["op"], str(x["msg"])[:400]))
+            print("VIOLATION property=%s replay=%s" % (prop, path))
+            return 1
     if crashed and not vs:
         print("REPLAY inconclusive: the recorded case could not be re-enacted on this tree (%s)" % crashed)
         print("INCONCLUSIVE property=%s reason=replay could not be re-enacted" % prop)
@@ -371,6 +385,39 @@ def replay(prop, path):
         return 2
     print("REPLAY held: %d monitor evaluation(s), no violation" % sum(core.REC.evals.values()))
     return 0
+
+
+def rerun_shard(prop, v):
+    """-> the violations by the recorded monitor that shard (tier, seed, shard, nshards) of the workload produces on this tree"""
+    i, n = v["shard"]
+    tmp = ROOT / ".work" / ("replay-shard-%d" % os.getpid())
+    tmp.mkdir(parents=True, exist_ok=True)
+    out = tmp / "shard.json"
+    cmd = [PY, "-B", str(ROOT / "check.py"), "--shard-worker", prop, "--tier", str(v.get("tier") or "quick"), "--seed", str(v.get("seed") or 0),
+           "--shard", str(i), "--nshards", str(n), "--out", str(out)]
+    try:
+        env = child_env(i, n) if i >= 0 else child_env()
+        env.pop("VERIF_REPLAY_CHILD", None)
+        subprocess.run(cmd, env=env, cwd=str(ROOT), stdout=subprocess.DEVNULL, stderr=subprocess.DEVNULL, timeout=3600)
+        r = json.loads(out.read_text())
+    except Exception:
+        return []
+    finally:
+        shutil.rmtree(tmp, ignore_errors=True)
+    listed = known_findings().get(prop, [])
+    classifiers = getattr(load(prop), "CLASSIFIERS", {})
+
+    def known(x):
+        for key, _text in listed:
+            try:
+                if classifiers.get(key) is not None and classifiers[key](x):
+                    return True
+            except Exception:
+                pass
+        return False
+
+    same = [x for x in r.get("violations", []) if x["monitor"] == v.get("monitor") and not known(x)]
+    return sorted(same, key=lambda x: (x.get("mech") != v.get("mech"), x.get("op") != v.get("op")))
 
 
 def selftest():
